@@ -37,7 +37,8 @@ def main():
         if m and m.group(1).startswith('unit-') and m.group(1) not in tests:
             tests.append(m.group(1))
     ut = {}
-    if os.path.isdir(os.path.join(wt, '_build')):
+    skip_unit = os.environ.get('CDSV_CONFIRM_SKIP_UNIT') == '1'   # demo-only confirmation (the unit-test results are then the author's, see meta.json)
+    if os.path.isdir(os.path.join(wt, '_build')) and not skip_unit:
         for t in tests:
             rc, o = sh('nice -n 5 ninja -C %s/_build -j8 %s' % (wt, t), timeout=7200)
             if rc != 0:
@@ -66,7 +67,10 @@ def main():
         try: os.remove(f)
         except OSError: pass
     ok_tests = all(v.startswith('passed') for v in ut.values())
-    out['confirmed'] = bool(ut) and ok_tests and sum(1 for r in runs if r['rc'] != 0) >= 2 and len(runs2) == 3 and all(r['rc'] == 0 for r in runs2)
+    out['unit_tests_rerun_here'] = not skip_unit
+    if skip_unit:
+        out['steps']['unit_tests_with_change'] = {'not re-run here; reported by the author of the change': meta.get('unit_tests_run', [])}
+    out['confirmed'] = (bool(ut) or skip_unit) and ok_tests and sum(1 for r in runs if r['rc'] != 0) >= 2 and len(runs2) == 3 and all(r['rc'] == 0 for r in runs2)
     json.dump(out, open(os.path.join(md, 'confirm.json'), 'w'), indent=1)
     print(json.dumps(out, indent=1)[:1500])
     return 0
